@@ -297,6 +297,12 @@ func TestC19(t *testing.T) {
 	texts4 := []string{"one", "two", "", "drei"}
 	r.Rapid(t, "random", r.Pick(3000, 20000), func(t *rapid.T) {
 		nops := rapid.IntRange(1, 30).Draw(t, "n")
+		// the package's configurable default language is a setting of the convenience constructors: the container behaves the same under it
+		if rapid.IntRange(0, 3).Draw(t, "default-lang") == 0 {
+			saved := ap.DefaultLang
+			ap.DefaultLang = rapid.SampledFrom([]ap.LangRef{"en", "fr", ""}).Draw(t, "lang")
+			defer func() { ap.DefaultLang = saved }()
+		}
 		var n ap.NaturalLanguageValues
 		var m nlModel
 		var hist []nlOp
